@@ -5,6 +5,7 @@ import (
 	"sort"
 	"strings"
 	"time"
+	"unicode"
 	"unicode/utf8"
 
 	parser "github.com/a-h/templ/parser/v2"
@@ -65,6 +66,14 @@ func (t stmpl) wire() [][]byte {
 // static text the templ syntax itself cannot carry, or that this family keeps out on purpose: "{{" in static text is an
 // expression, "{" before a hole moves the hole, a backslash before a hole takes the hole's first brace with it,
 // "</script" and "<!--" belong to the HTML level (counted by the specification, never generated here)
+//
+// Two junctions of line terminators with a hole are kept out as well (both stated where they belong):
+//   - backslash CR, a hole, then LF: with an EMPTY value the author's CR and LF meet as one CR LF and the line
+//     continuation swallows the LF (the clause cr_lf_kept of spec/JsScript.v ok_junction; props/C03.v
+//     C03_ex_hole_after_backslash_cr) - a template whose CR LF line ending has an expression between the CR and the LF;
+//   - a hole followed by white space that is not ASCII (U+2028/9 here) and then "</": the parser takes the white space
+//     with the expression and ends the contents at the "</" whatever the quote state; model/JsTrack.v skips ASCII white
+//     space only (a stated limit of the model; "</" right after a hole is outside the tracker fragment anyway)
 func (t stmpl) expressible() bool {
 	for i, s := range t.segs {
 		if strings.Contains(s, "{{") || strings.Contains(strings.ToLower(s), "</script") || strings.Contains(s, "<!--") {
@@ -72,6 +81,22 @@ func (t stmpl) expressible() bool {
 		}
 		if i < len(t.idx) && (strings.HasSuffix(s, "{") || oddBackslashes(s)) {
 			return false
+		}
+		if i < len(t.idx) && strings.HasSuffix(s, "\r") && oddBackslashes(strings.TrimSuffix(s, "\r")) {
+			for j := i + 1; j < len(t.segs); j++ {
+				if t.segs[j] != "" {
+					if t.segs[j][0] == '\n' {
+						return false
+					}
+					break
+				}
+			}
+		}
+		if i > 0 {
+			ascii := strings.TrimLeft(s, " \t\n\v\f\r")
+			if all := strings.TrimLeftFunc(s, unicode.IsSpace); all != ascii && strings.HasPrefix(all, "</") {
+				return false
+			}
 		}
 	}
 	return true
@@ -101,6 +126,17 @@ func (g *sgen) text(s string) {
 	// never let static text spell "{{" or "${" by accident
 	if c := g.last(); len(s) > 0 && s[0] == '{' && (c == '{' || c == '$') {
 		g.cur.WriteByte(' ')
+	}
+	// ... nor across holes: "$", a hole whose value is empty, "{" is the author's own "${" as well (the known
+	// junction of "$" with a hole is exercised through values that begin with "{")
+	if len(s) > 0 && s[0] == '{' && g.cur.Len() == 0 {
+		j := len(g.segs) - 1
+		for j > 0 && g.segs[j] == "" {
+			j--
+		}
+		if j >= 0 && strings.HasSuffix(g.segs[j], "$") {
+			g.cur.WriteByte(' ')
+		}
 	}
 	g.cur.WriteString(s)
 }
@@ -195,13 +231,31 @@ func (g *sgen) piece(q byte) {
 		} else {
 			g.text(rng.Pick(r, plainPieces))
 		}
-	case 14:
-		g.text("\\\n")
+	case 14: // a line continuation: backslash, then a line terminator in one of its five forms
+		k := r.Intn(len(lineTerms))
+		g.text("\\" + lineTerms[k].s)
 		g.feats["line continuation"] = true
+		g.feats["line continuation: backslash "+lineTerms[k].name] = true
 	default:
-		g.text(rng.Pick(r, plainPieces))
+		// a RAW line terminator in the body: part of the value in a template literal; in '...' and "..." it ends the
+		// line inside the literal, which no JavaScript engine accepts (U+2028/9: since ES2019) - the parser's quote
+		// state must not depend on it all the same
+		if q == '`' || r.Intn(3) == 0 {
+			k := r.Intn(len(lineTerms))
+			g.text(lineTerms[k].s)
+			if q == '`' {
+				g.feats["raw "+lineTerms[k].name+" inside `...`"] = true
+			} else {
+				g.feats["raw "+lineTerms[k].name+" inside '...' / \"...\" (not a JavaScript literal)"] = true
+			}
+		} else {
+			g.text(rng.Pick(r, plainPieces))
+		}
 	}
 }
+
+// the line terminators of ECMAScript 12.3 (CR LF counts as one)
+var lineTerms = []struct{ name, s string }{{"LF", "\n"}, {"CR LF", "\r\n"}, {"CR", "\r"}, {"U+2028", lsStr}, {"U+2029", psStr}}
 
 func (g *sgen) literal() {
 	q := rng.Pick(g.r, []byte{'\'', '"', '`'})
@@ -213,6 +267,14 @@ func (g *sgen) literal() {
 	if g.r.Intn(5) == 0 {
 		g.text(strings.Repeat("\\\\", 1+g.r.Intn(3)))
 		g.feats["escaped backslash directly before the closing quote"] = true
+	}
+	// a '...' or "..." literal that is not closed on its line: the closing quote is missing and the line ends (the text
+	// after it is read with the quote still open by templ's parser, and not at all by a JavaScript engine)
+	if q != '`' && g.r.Intn(20) == 0 {
+		k := g.r.Intn(len(lineTerms))
+		g.text(lineTerms[k].s)
+		g.feats["literal not closed on its line (not valid JavaScript)"] = true
+		return
 	}
 	g.text(string(q))
 }
@@ -279,7 +341,14 @@ func genScript(r *rng.R) stmpl {
 				g.text(rng.Pick(r, []string{"", "", " ", "\n"}))
 				g.feats["end tag directly after the last term"] = true
 			} else {
-				g.text(rng.Pick(r, []string{";", ";\n", "; ", ";\n\t", ")\n", "\n"}))
+				if r.Intn(8) == 0 {
+					// a line terminator other than LF between two statements
+					k := 1 + r.Intn(len(lineTerms)-1)
+					g.text(rng.Pick(r, []string{";", "", ")"}) + lineTerms[k].s)
+					g.feats["statements separated by "+lineTerms[k].name] = true
+				} else {
+					g.text(rng.Pick(r, []string{";", ";\n", "; ", ";\n\t", ")\n", "\n"}))
+				}
 				if r.Intn(6) == 0 {
 					g.comment()
 				}
@@ -287,9 +356,100 @@ func genScript(r *rng.R) stmpl {
 		}
 		t := g.finish()
 		if len(t.idx) > 0 && len(t.idx) <= 8 && t.expressible() {
-			return t
+			return t.withLineEndings(r)
 		}
 	}
+}
+
+// withLineEndings saves the template as an editor would: with LF line endings as generated, with CR LF line endings
+// (every LF of the static text that does not already follow a CR becomes CR LF - inside literals, after the backslash of
+// a line continuation, at the end of comments, between statements), or with a mixture of the two
+func (t stmpl) withLineEndings(r *rng.R) stmpl {
+	style := r.Intn(10)
+	if style < 5 {
+		t.feats = append(t.feats, "file saved with LF line endings")
+		return t
+	}
+	mixed := style >= 8
+	segs := make([]string, len(t.segs))
+	changed := false
+	for i, s := range t.segs {
+		var sb strings.Builder
+		for j := 0; j < len(s); j++ {
+			if s[j] == '\n' && !(j > 0 && s[j-1] == '\r') && !(mixed && r.Bool()) {
+				sb.WriteByte('\r')
+				changed = true
+			}
+			sb.WriteByte(s[j])
+		}
+		segs[i] = sb.String()
+	}
+	t.segs = segs
+	switch {
+	case !changed:
+		t.feats = append(t.feats, "file saved with LF line endings")
+	case mixed:
+		t.feats = append(t.feats, "file saved with mixed LF / CR LF line endings")
+	default:
+		t.feats = append(t.feats, "file saved with CR LF line endings")
+	}
+	sort.Strings(t.feats)
+	return t
+}
+
+// crlfTwin is spec/JsScript.v [crlf] on the template: EVERY LF of the static text becomes CR LF
+func (t stmpl) crlfTwin() stmpl {
+	segs := make([]string, len(t.segs))
+	for i, s := range t.segs {
+		segs[i] = strings.ReplaceAll(s, "\n", "\r\n")
+	}
+	t.segs = segs
+	t.feats = []string{"CR LF twin of a template the parser judges differently"}
+	return t
+}
+
+// small exhaustive sweep over line terminators: for each quote kind and each of the five line-terminator forms, a literal
+// that holds the terminator after a backslash (a line continuation), after an escaped backslash or a run of three, or raw,
+// with a hole before it, directly after it or later on the continued line; a literal left open at the end of its line
+// followed by statements with holes; terminators between a hole in script text and the next literal.  Every template ends
+// in a hole in script text, so a quote state lost or kept wrongly shows in that hole as well.
+func sweepLines() []stmpl {
+	var out []stmpl
+	add := func(segs []string, kinds string, feat string) {
+		t := stmpl{segs: segs, kinds: []byte(kinds), feats: []string{"sweep: " + feat}}
+		for i := range kinds {
+			t.idx = append(t.idx, i%sparams)
+		}
+		if t.expressible() {
+			out = append(out, t)
+		}
+	}
+	for _, q := range []byte{'"', '\'', '`'} {
+		Q := string(q)
+		for _, lt := range lineTerms {
+			T := lt.s
+			cont := "line continuation (backslash " + lt.name + "), "
+			raw := "raw " + lt.name + " in a literal, "
+			end := ";" + T + "var b = "
+			add([]string{"var a = " + Q + "x\\" + T + "y" + Q + end, ""}, "b", cont+"then a hole in script text")
+			add([]string{"var a = " + Q + "x\\" + T, "y" + Q + end, ""}, Q+"b", cont+"hole directly after it")
+			add([]string{"var a = " + Q + "x\\" + T + "  y ", " z" + Q + end, ""}, Q+"b", cont+"hole later on the continued line")
+			add([]string{"var a = " + Q, "\\" + T + "y" + Q + end, ""}, Q+"b", cont+"hole before it")
+			add([]string{"var a = " + Q + "x\\" + T, "\\" + T, Q + end, ""}, Q+Q+"b", cont+"twice, a hole after each")
+			add([]string{"var a = " + Q + "x\\\\" + T, "y" + Q + end, ""}, Q+"b", "escaped backslash, "+raw+"hole after it")
+			add([]string{"var a = " + Q + "x\\\\\\" + T, "y" + Q + end, ""}, Q+"b", "three backslashes and "+lt.name+" in a literal, hole after it")
+			add([]string{"var a = " + Q + "x" + T, "y" + Q + end, ""}, Q+"b", raw+"hole after it")
+			add([]string{"var a = " + Q, T + "y" + Q + end, ""}, Q+"b", raw+"hole before it")
+			add([]string{"var a = " + Q + "x" + T + "y" + Q + end, ""}, "b", raw+"then a hole in script text")
+			// the literal is left open at the end of its line
+			add([]string{"var a = " + Q + "x" + T + "var b = ", ";" + T + "var c = " + Q, Q + ";"}, "b"+Q, "literal not closed on its line, holes on the next lines")
+			add([]string{"var a = " + Q + "x;" + T + "// it" + Q + "s" + T + "var b = ", ";"}, "b", "literal not closed on its line, the same quote in a comment on the next line")
+			// terminators in script text around literals
+			add([]string{"var a = ", T + "var b = " + Q, Q + T + "var c = ", ""}, "b"+Q+"b", lt.name+" between statements, holes in script text and in a literal")
+			add([]string{"f(" + Q + "x" + Q + "," + T + Q, Q + "," + T, ")"}, Q+"b", lt.name+" between two literals")
+		}
+	}
+	return out
 }
 
 // small exhaustive sweep: every literal body of up to maxLen pieces over a small alphabet, for each quote kind, followed by
@@ -566,6 +726,7 @@ type scriptPlan struct {
 
 func planScripts(c *core.Ctx) scriptPlan {
 	var pl scriptPlan
+	pl.all = append(pl.all, sweepLines()...)
 	pl.all = append(pl.all, sweepScripts(c.N(3, 4))...)
 	nsweep := len(pl.all)
 	r := c.Rng.Fork()
@@ -588,19 +749,39 @@ func famScripts(c *core.Ctx, t *tally, pl scriptPlan, sc *scratch, compiledOK ma
 		tieRender   = "scripts: model render = the parser's parts composed with the runtime escapers as generator.writeScriptContents does"
 		tieCompiled = "scripts: the generated, compiled code renders that composition (sample of the templates)"
 		propScript  = "scripts: a JavaScript lexer reads in the rendered script the token sequence of the author's template with every hole as data (spec/JsScript.v confined)"
+		tieLines    = "scripts: the parser gives a template saved with CR LF line endings the verdicts it gives the LF file - same expressions, same InsideStringLiteral flags, accepted alike (C03_tracker_line_endings)"
 	)
 	t.declare("tie", tieTrack)
+	t.declare("tie", tieLines)
 	t.declare("tie", tieRender)
 	t.declare("tie", tieCompiled)
 	t.declare("prop", propScript)
 	r := c.Rng.Fork()
 	var cases []scriptCase
 	var reqs []drv.Req
-	parsed := make([]parsedScript, len(pl.all))
-	rejected := 0
-	for i, tp := range pl.all {
+	all := append([]stmpl{}, pl.all...)
+	parsed := make([]parsedScript, 0, len(all))
+	rejected, twins := 0, 0
+	for i := 0; i < len(all); i++ {
+		tp := all[i]
 		p := parseScript(tp)
-		parsed[i] = p
+		parsed = append(parsed, p)
+		if i < len(pl.all) && strings.Contains(tp.body(), "\n") {
+			// the same template saved with CR LF line endings: the model tracker's verdicts are proved to be the same
+			// (for every template, JavaScript or not), so the parser's must be.  A twin judged differently is rendered
+			// and judged by the specification like every other template
+			tw := tp.crlfTwin()
+			p2 := parseScript(tw)
+			twins++
+			if p2.ok != p.ok || p2.flags != p.flags {
+				t.tie(tieLines, map[string]any{"template_lf": "<script>" + tp.body() + "</script>", "template_crlf": "<script>" + tw.body() + "</script>",
+					"parser_lf": map[string]any{"accepted": p.ok, "flags": p.flags, "why": p.why}, "parser_crlf": map[string]any{"accepted": p2.ok, "flags": p2.flags, "why": p2.why}},
+					"the parser's verdicts depend on how the lines of the template end")
+				if len(all) < len(pl.all)+200 {
+					all = append(all, tw)
+				}
+			}
+		}
 		adj := false
 		for _, f := range tp.feats {
 			c.Hist("script: " + f)
@@ -737,12 +918,18 @@ func famScripts(c *core.Ctx, t *tally, pl scriptPlan, sc *scratch, compiledOK ma
 		in["tokens_of_template"] = want
 		in["tokens_of_rendering"] = got
 		shape := "script-tokens-differ"
+		// where the template's lexing stops (it is not JavaScript from there on) the holes behind the stop have no lexical
+		// position: the parser's flags are compared with the positions there are
+		misjudged := positions != cs.p.flags
+		if n := len(want); n > 0 && strings.HasPrefix(want[n-1], "stop ") && len(positions) <= len(cs.p.flags) {
+			misjudged = positions != cs.p.flags[:len(positions)]
+		}
 		switch {
 		case len(bits) == 2 && bits[0] == '1':
 			shape = "script-end-places-differ"
-		case positions != cs.p.flags && commentAfterHole(cs.t, positions):
+		case misjudged && commentAfterHole(cs.t, positions):
 			shape = "comment-opener-after-hole-in-literal"
-		case positions != cs.p.flags:
+		case misjudged:
 			shape = "hole-position-misjudged"
 		default:
 			// is the failure exactly the known "$" + "{" junction?  Only if every such hole, given a harmless first
@@ -786,7 +973,8 @@ func famScripts(c *core.Ctx, t *tally, pl scriptPlan, sc *scratch, compiledOK ma
 			t.prop(propScript, shape, in, detail)
 		}
 	}
-	c.Extra["script_templates"] = len(pl.all)
+	c.Extra["script_templates"] = len(all)
+	c.Extra["script_templates_parsed_again_with_crlf_line_endings"] = twins
 	c.Extra["script_templates_rejected_by_parser"] = rejected
 	c.Extra["script_renderings_judged"] = len(cases)
 
